@@ -23,6 +23,12 @@ template char* osmium::detail::append_location_coordinate_to_string<char*>(char*
 template std::ostream_iterator<char>
 osmium::detail::append_location_coordinate_to_string<std::ostream_iterator<char>>(std::ostream_iterator<char>, int32_t);
 
+// Location::as_string with a real (pointer) output iterator and with an inserter
+template char* osmium::Location::as_string<char*>(char*, const char) const;
+template char* osmium::Location::as_string_without_check<char*>(char*, const char) const;
+template std::back_insert_iterator<std::string>
+osmium::Location::as_string<std::back_insert_iterator<std::string>>(std::back_insert_iterator<std::string>, const char) const;
+
 // the id / attribute widths the OPL reader parses (object_id_type; changeset, version and user id types)
 template int64_t osmium::io::detail::opl_parse_int<int64_t>(const char**);
 template uint32_t osmium::io::detail::opl_parse_int<uint32_t>(const char**);
